@@ -38,7 +38,7 @@
 (*   WSaveMapW    write signed map, close                                  *)
 (*   WSaveRename  mkdirall(parent); rename(temp dir, hdir)                 *)
 (*                (fails when hdir is a non-empty directory)               *)
-(*   WSaveRmAll   error path of Save: RemoveAll(hdir)                      *)
+(*   WSaveRmAll   error path of Save before the repair: RemoveAll(hdir)    *)
 (*   WSaveFjC     create/truncate <h>.json                                 *)
 (*   WSaveFjW     write <h>.json (every item: local://<name>)              *)
 (*   WDBMerge     Writer.Save: block map + states into the database        *)
@@ -93,7 +93,10 @@ CONSTANTS Writers,        \* writer instances ("w1", "w2"); HeightOf, ShapeOf be
           Concurrent,     \* TRUE: several writers may be inside Save at once (TOCTOU)
           Uploads,        \* TRUE: operator uploads of <h>.json + clean-up pass
           SameHeight,     \* TRUE: all writers write height 1 (rewrites); FALSE: writer i writes height i
-          CheckAFixed     \* FALSE: launch.PCheckBlocksOfStorage as pinned (never fails); TRUE: as intended
+          CheckAFixed,    \* TRUE: launch.PCheckBlocksOfStorage stops the start-up on a height difference (the tree
+                          \* after fixes/FSSTORE-check-blocks-of-storage-errors-as.diff); FALSE: it never fails (before)
+          SaveRmForeign   \* FALSE: Save's error path removes the height directory only after its own rename (the tree
+                          \* after fixes/FSSTORE-save-error-path-removes-foreign-directory.diff); TRUE: always (before)
 
 ItemsAll == {"proposal", "operations", "operations_tree", "states", "states_tree", "voteproofs"}
 ItemsOf(s) == CASE s = "full"  -> ItemsAll
@@ -222,12 +225,14 @@ WSaveRename(w) ==
           /\ tmp' = [tmp EXCEPT ![w] = NoDir]
           /\ pc' = [pc EXCEPT ![w] = "s_fjc"]
           /\ step' = "WSaveRename" \o " " \o w \o " " \o "TRUE"
-     ELSE /\ pc' = [pc EXCEPT ![w] = "s_rmall"]
+     ELSE /\ pc' = [pc EXCEPT ![w] = IF SaveRmForeign THEN "s_rmall" ELSE "failed"]
           /\ step' = "WSaveRename" \o " " \o w \o " " \o "FALSE"
           /\ UNCHANGED <<hdir, tmp, cp>>
   /\ UNCHANGED <<up, started, crashes, idx, shape, hof, fjson, db, saved, cache, empt, cl, cp>>
 
-\* Save's error path: `_ = os.RemoveAll(heightdirectory)` - whoever owns it
+\* Save's error path before the repair: `_ = os.RemoveAll(heightdirectory)` - whoever owns it
+\* (SaveRmForeign). After it: only when this writer's rename happened; errors after the rename
+\* (<height>.json cannot be written) are not modelled, the harness forces one (save-error-after-rename).
 WSaveRmAll(w) ==
   /\ up /\ pc[w] = "s_rmall"
   /\ hdir' = [hdir EXCEPT ![hof[w]] = NoDir]
@@ -328,8 +333,8 @@ MapAt(h) ==
                                ELSE <<"notfound">>
 \* launch.PCheckBlocksOfStorage: IsValidLastBlocks. Intended (CheckAFixed): a difference of heights
 \* between the database and the local fs is fatal; every other error is dropped (the
-\* `if errors.As(err, &derr)` has no else). Pinned tree: `derr` is declared as the struct type while
-\* the error is a pointer to it, errors.As never matches, so the check never fails (CheckA = TRUE).
+\* `if errors.As(err, &derr)` has no else). Before the repair `derr` was declared as the struct type while
+\* the error is a pointer to it, errors.As never matched and the check never failed (CheckAFixed = FALSE).
 CheckAIntended ==
   LET l == FsLast IN
   IF l = 0 THEN DbLast = 0               \* the stored prefix (height 0) is what the local fs has last
@@ -355,9 +360,12 @@ Pred == LET w == CHOOSE x \in Writers : TRUE
 Restart ==
   /\ ~up
   /\ tmp' = [w \in Writers |-> NoDir]            \* CleanBlockTempDirectory
-  /\ IF CheckA /\ CheckB THEN up' = TRUE /\ started' = TRUE ELSE up' = FALSE /\ started' = FALSE
+  /\ crashes <= MaxCrash
+  \* a refused start-up is final (operator action needed); crashes = MaxCrash + 1 marks it
+  /\ IF CheckA /\ CheckB THEN up' = TRUE /\ started' = TRUE /\ crashes' = crashes
+     ELSE up' = FALSE /\ started' = FALSE /\ crashes' = MaxCrash + 1
   /\ step' = "Restart" \o " " \o B(CheckA) \o " " \o B(CheckB) \o " " \o Pred
-  /\ UNCHANGED <<crashes, pc, idx, shape, hof, hdir, fjson, db, saved, cache, empt, cl, cp>>
+  /\ UNCHANGED <<pc, idx, shape, hof, hdir, fjson, db, saved, cache, empt, cl, cp>>
 
 ----------------------------------------------------------------------------
 (* readers: cache fill, operator uploads, the clean-up pass *)
@@ -423,7 +431,7 @@ Spec == Init /\ [][Next]_vars
 (* properties *)
 
 TypeOK ==
-  /\ up \in BOOLEAN /\ started \in BOOLEAN /\ crashes \in 0..MaxCrash
+  /\ up \in BOOLEAN /\ started \in BOOLEAN /\ crashes \in 0..(MaxCrash + 1)
   /\ \A w \in Writers : tmp[w].k \in {"none", "dir"}
   /\ \A h \in Heights : /\ hdir[h].k \in {"none", "dir"}
                         /\ fjson[h].k \in {"none", "trunc", "local", "remote"}
